@@ -58,6 +58,8 @@ pub enum Op {
     Send { from: u8, to: u8 },
     /// `try_open_substream_batch` with one peer
     TryOpen { from: u8, to: u8 },
+    /// `open_substream_batch` with four peers nobody knows an address of plus `to`
+    OpenBatch { from: u8, to: u8 },
     /// `send_async_notification`
     SendAsync { from: u8, to: u8 },
     /// late answer to a deferred validation
@@ -79,6 +81,7 @@ impl Op {
             Op::Close { from, to } => format!("{}.close({})", n(from), n(to)),
             Op::Send { from, to } => format!("{}.send({})", n(from), n(to)),
             Op::TryOpen { from, to } => format!("{}.try_open_batch({})", n(from), n(to)),
+            Op::OpenBatch { from, to } => format!("{}.open_batch(4 unknown peers + {})", n(from), n(to)),
             Op::SendAsync { from, to } => format!("{}.send_async({})", n(from), n(to)),
             Op::Answer { node, peer, accept } => format!("{}.answer({},{})", n(node), n(peer), if *accept { "accept" } else { "reject" }),
             Op::Cut => "cut(A-B)".into(),
@@ -141,6 +144,7 @@ impl Entry {
 enum UCmd {
     Open(u8),
     TryOpen(u8),
+    OpenBatch(u8),
     Close(u8),
     Send(u8, Vec<u8>),
     SendAsync(u8, Vec<u8>),
@@ -194,6 +198,19 @@ fn spawn_user(w: &mut World, node: u8, mut handle: NotificationHandle, peers: [P
                         handle.set_handshake(vec![x, opens]);
                         let r = handle.try_open_substream_batch(std::iter::once(peers[y as usize]));
                         log.lock().push(Entry::OpenCmd { x, y, ok: r.is_ok(), err: r.err().map(|e| format!("refused for {} peer(s)", e.len())).unwrap_or_default(), ended: script.0.lock().ended.len() });
+                    }
+                    Some(UCmd::OpenBatch(y)) => {
+                        opens += 1;
+                        handle.set_handshake(vec![x, opens]);
+                        let unknown: Vec<PeerId> = (0..4u64).map(|k| crate::util::peer(7000 + 10 * x as u64 + k)).collect();
+                        let r = handle.open_substream_batch(unknown.iter().copied().chain(std::iter::once(peers[y as usize]))).await;
+                        let ended = script.0.lock().ended.len();
+                        let err = r.as_ref().err().map(|e| format!("refused for {} peer(s)", e.len())).unwrap_or_default();
+                        // one accepted request per peer of the batch (unknown peers share the harness's "other" slot)
+                        for _ in &unknown {
+                            log.lock().push(Entry::OpenCmd { x, y: 255, ok: r.is_ok(), err: err.clone(), ended });
+                        }
+                        log.lock().push(Entry::OpenCmd { x, y, ok: r.is_ok(), err, ended });
                     }
                     Some(UCmd::SendAsync(y, data)) => {
                         let r = handle.send_async_notification(peers[y as usize], data).await;
@@ -713,6 +730,9 @@ impl Scenario for NotifScenario {
             Op::TryOpen { from, to } => {
                 let _ = st.cmd[from as usize].send(UCmd::TryOpen(to));
             }
+            Op::OpenBatch { from, to } => {
+                let _ = st.cmd[from as usize].send(UCmd::OpenBatch(to));
+            }
             Op::SendAsync { from, to } => {
                 st.sends += 1;
                 let _ = st.cmd[from as usize].send(UCmd::SendAsync(to, vec![0x60 + from, st.sends]));
@@ -782,6 +802,7 @@ const BS: Op = Op::Send { from: B, to: A };
 const AT: Op = Op::TryOpen { from: A, to: B };
 const AY: Op = Op::SendAsync { from: A, to: B };
 const AOC: Op = Op::Open { from: A, to: C };
+const AB4: Op = Op::OpenBatch { from: A, to: B };
 const CUT: Op = Op::Cut;
 const REC: Op = Op::Reconnect;
 const HOLD_A: Op = Op::HoldOpens { node: A, hold: true };
@@ -859,6 +880,10 @@ pub fn scenarios(thorough: bool) -> Vec<(NotifScenario, usize)> {
         // must not be applied to the new substream, which B's user turns down
         scn(&[AO, CUT, REC, CUT, REC, AO, B_ACC], acc, &[Defer, Reject], false, false),
         scn(&[AO, CUT, REC, AO, B_ACC], acc, &[Defer, Reject], false, false),
+        // a batch of open requests in which some peers cannot even be dialed: every peer gets its own answer
+        scn(&[AB4], acc, acc, false, false),
+        scn(&[AB4, AS, AC], acc, acc, true, true),
+        scn(&[CUT, AB4], acc, acc, false, false),
         // notifications
         scn(&[AO, AS, AC], acc, acc, false, false),
         scn(&[AO, BS, BC], acc, acc, true, false),
